@@ -55,3 +55,8 @@ Section Drop.
         else (exists e, snd (add st f) = Some e) /\ refused_along add st g'
     end.
 End Drop.
+
+(** every group that starts with a dropped file is dropped as a whole (so that no group changes its
+    representative when the dropped files are taken out of the path list) *)
+Definition heads_closed {F} (p : F -> bool) (gs : list (group F)) : Prop :=
+  forall g f, In g gs -> hd_error (snd g) = Some f -> p f = false -> filter p (snd g) = [].
